@@ -19,8 +19,8 @@ T = {
     "C04": ("exploration", "bounded-exhaustive (filter,name) enumeration + rapid sets vs. independent reference matcher, both directions",
             "All filter/name pairs over levels {a,b,empty,+,#} up to depth 4 are enumerated in both directions (Match with stored filters, Search with stored names) and compared with an independent MQTT 4.7 matcher; larger random sets cover interference and duplicates.",
             "trusts verif/internal/reftopic; names exclude wildcards, U+0000 and a leading $", "4 C04"),
-    "C05": ("exploration", "model-based stateful testing (rapid state machine + bounded-exhaustive op sequences) vs. map model; concurrent histories checked for linearizability (porcupine) under the race detector",
-            "Every query is compared with a map model after every step of generated and enumerated operation sequences, the printed structure with a freshly built tree, returned slices with their snapshot; concurrent histories are checked for linearizability against the model.",
+    "C05": ("exploration", "model-based stateful testing (rapid state machine + bounded-exhaustive op sequences) vs. map model; concurrent histories checked for linearizability (porcupine) and confluent concurrent writes compared with the model at quiescence, under the race detector",
+            "Every query is compared with a map model after every step of generated and enumerated operation sequences, the printed structure with a freshly built tree, returned slices with their snapshot; concurrent histories are checked for linearizability against the model; commuting idempotent writes issued by up to 16 goroutines at once (the same Add/Remove by several) must leave exactly the model's contents.",
             "schedules are sampled (Go scheduler), not enumerated", "4 C05"),
     "C06": ('exploration', 'model-based stateful testing of the broker (rapid op histories over scripted raw peers on in-memory connections) vs. subscription model with quiescence barriers; plus generated fan-out scenarios under back-pressure',
             "Generated histories of connect/subscribe/unsubscribe/publish over 1-6 raw peers are run against the real engine+memory backend; after each publish a marker barrier establishes quiescence and every peer's inbox is compared with the model (exactly the matching subscribers, once, intact, QoS of a matching filter). Fan-out under back-pressure: a stalled subscriber leaving while a publish waits behind it, and a client filling its own queue.",
@@ -35,7 +35,7 @@ T = {
             'API calls (Publish QoS 0-2, Subscribe, Unsubscribe, concurrent publishes) and fake-broker behaviour (acks in any order, PUBREC only, stray acks, drop, denied/wrong first packet) are generated; every connection operation and every session call is failed in turn; the outgoing store is compared with a map model after every step, everything recorded must be re-sent after CONNACK, futures must be pending before and complete after their acknowledgement, resolved after every end, accessors never panic, Close/Disconnect return.',
             'after an injected fault only the state-independent clauses are judged; hang = no return within 10 s', '4 C09, 9'),
     "C10": ('fault_enumeration', 'generated fake-broker scripts interpreted against the MQTT sender rules x application verdicts x callback modes x clean/persistent session x enumerated connection-fault positions; sender-side handshake model with QoS 1 barriers',
-            "Scripts of PUBLISH/PUBREL (also duplicated / repeated), QoS 0/1 messages and drop+resume over 1-3 ids are generated with accept/reject verdicts; every send and receive on the client's connection is failed in turn; judged against the sender-side handshake model (every PUBLISH/PUBREL answered, exactly one accepted delivery per handshake, no ack after a rejected delivery).",
+            "Scripts of PUBLISH/PUBREL (also duplicated / repeated), QoS 0/1 messages, drop+resume, a broker that loses its session and reuses ids, and an application that closes the client while its callback runs, over 1-3 ids, are generated with accept/reject verdicts; every send and receive on the client's connection is failed in turn; judged against the sender-side handshake model (every PUBLISH/PUBREL answered, exactly one accepted delivery per handshake, no ack after a rejected delivery).",
             'default callback mode for exactly-once; early mode only ordering clauses', '4 C10, 9'),
     "C11": ("exploration", "model-based stateful testing of retained messages (rapid histories x bounded-exhaustive filter set) vs. map model + reference matcher",
             "Histories of retained/non-retained/empty publishes, wills and subscriptions with every filter of the depth-3 exhaustive filter set are run; each SUBSCRIBE's replay is compared with the model.",
@@ -44,11 +44,11 @@ T = {
             "The valid cause x variant x state x will QoS x retain matrix (19 causes, 5 states) is enumerated completely; the will's publications are counted at the backend and at four observers (online clean, online persistent, online with full window and queue, offline persistent) and a late subscriber (retained replay).",
             "'accepted' = the backend's Setup returned a session; keep-alive expiry with a shortened maximum keep-alive", '4 C12, 9.6'),
     "C13": ("exploration", "generated concurrent takeover scenarios (2-8 contenders, skew/jitter, GOMAXPROCS) under the race detector; ordering invariants over the recorded backend/connection history",
-            "Many generated takeover races are run; the recorded history must show Terminate(old) and the old will before the newcomer's Setup return and CONNACK, exactly one survivor, no leaked goroutine; a deterministic variant checks the session hand-over content.",
+            "Many generated takeover races are run; the recorded history must show the start of Terminate(old) and the old will before the newcomer's Setup return and CONNACK, exactly one survivor, no leaked goroutine; a deterministic variant checks the session hand-over content.",
             "schedules are sampled, not enumerated", "4 C13"),
     "C14": ('exploration', 'rapid-generated hostile frame streams + native go fuzzing against a live engine with witness clients; resource-release invariants (Terminate once per Setup, Closed fires, goroutine census)',
-            'Hostile connections (admissible packets with hostile values, out-of-protocol packets, mutated/truncated frames, garbage, oversize declarations; storms sharing client ids; KillTimeout 1 ns, backend shutdown race, failing backend hooks, a subscriber that never acknowledges and then leaves) run against the engine while two witnesses receive a numbered stream; process survival, closing of the offender only, witness traffic, termination accounting and goroutine census are judged.',
-            "hostile peers' inbound data is drained (a non-reading subscriber is a documented backend limitation) except in the slow-subscriber environment, which ends by that subscriber leaving", '4 C14, 9'),
+            'Hostile connections (admissible packets with hostile values, out-of-protocol packets, mutated/truncated frames, garbage, oversize declarations; storms sharing client ids; KillTimeout 1 ns, backend shutdown race, failing backend hooks, a subscriber that never acknowledges and then leaves, one that never acknowledges, keeps publishing and stays until the token timeout removes it) run against the engine while two witnesses receive a numbered stream; process survival, closing of the offender only, witness traffic, termination accounting and goroutine census are judged.',
+            "hostile peers' inbound data is drained (a non-reading subscriber is a documented backend limitation) except in the slow-subscriber / stalled-publisher environments, which end by that subscriber leaving or by the broker's token timeout (2 s there)", '4 C14, 9'),
     "C15": ('exploration', 'generated concurrent publisher/subscriber scenarios, resume scenarios with backlog on broker and client side, client inbound streams and service command sequences; per-stream monotonicity oracle',
             'Numbered messages from 1-8 concurrent publishers to 1-4 subscribers: every (publisher, QoS, subscriber) stream must arrive in order; resume bursts (PUBLISH and PUBREL) must keep their original order and precede fresh deliveries; client callback order per QoS and service command order likewise.',
             'schedules sampled (with per-operation jitter on the resumed connection)', '4 C15, 9'),
@@ -56,13 +56,13 @@ T = {
             'Generated ack plans (immediate, batched, full-window batches, sliding delay, reversed, PUBCOMP withheld, drop + unclean reconnect, idle then full window, QoS 0 bursts) over streams of up to 20x window messages: the unacknowledged count at the subscriber never exceeds the window, everything arrives, QoS 0 holds no slot, the connection is never closed on a client that acknowledges.',
             'only valid acknowledgements generated; stall = no arrival for 10 s', '4 C16'),
     "C17": ('fault_enumeration', 'generated service scripts x failure modes injected into successive connection attempts (scripted fake broker/dialer, slow session store); subscription-set model + future oracle',
-            "Service scripts (Subscribe/Unsubscribe/Publish, concurrent calls, Stop/Start) with up to 6 injected failures (dial refused, CONNECT unsendable, no CONNACK, denied, drop after k packets, SUBACK failure, drop before PUBACK): the service must come online again, the broker's subscription view must equal what all calls imply, publish futures must survive a resumed session, Stop must return and cancel, a restart must come online.",
+            "Service scripts (Subscribe/Unsubscribe/Publish, concurrent calls, Stop/Start) with up to 6 injected failures (dial refused, CONNECT unsendable, no CONNACK, denied, drop after k packets, SUBACK failure, drop before PUBACK): the service must come online again, the broker's subscription view must equal what all calls imply, publish futures must survive a resumed session, Stop must return and cancel, a restart must come online. One recorded finding (UNSUBSCRIBE lost on a persistent session is never repeated) is classified, counted and reported as KNOWN-FINDING.",
             'service time-outs shortened; liveness judged by a 10 s ceiling', '4 C17, 9'),
     "C18": ("exploration", "exhaustive enumeration of all 65536 counter states + model-based stateful testing of the packet store (rapid + bounded-exhaustive) + concurrent callers",
             "All counter states are enumerated (next id, successor, 65535 distinct), the store is compared with two maps over generated and enumerated histories, concurrent callers are checked under the race detector.",
             "QoS 0 publishes with id 0 are not stored by any caller and are not generated", "4 C18"),
     "C19": ('fault_enumeration', 'generated concurrent send/close scenarios on BaseConn over an instrumented in-memory carrier, net.Pipe, TCP and WebSocket loopback, with enumerated carrier fault positions; stream-integrity and after-close oracles',
-            '1-16 senders with self-checking packets, Close from another goroutine, carrier failures at every operation position (in-memory carrier): decoded packets intact, per-sender ordered, never duplicated; nothing accepted before Close is lost; after close / peer close / read timeout every call fails promptly; Close unblocks Receive; a failing Receive releases a Send stuck in the carrier.',
+            '1-16 senders with self-checking packets, Close from another goroutine, carrier failures at every operation position (in-memory carrier): decoded packets intact, per-sender ordered, never duplicated; nothing accepted before Close is lost; after close / peer close / read timeout every call fails promptly; Close unblocks Receive; a failing Receive (read timeout, decode / read-limit error) releases a Send that is stuck because the peer stopped reading, on the in-memory carrier, net.Pipe, TCP and WebSocket loopback; hangs are judged by absence of progress for 10 s.',
             'schedules sampled; fault positions enumerated up to 150 per side; net.Pipe wrapped with socket deadline semantics', '4 C19, 9'),
     "C20": ('exploration', 'rapid-generated pipelined packet sequences (incl. request-only sequences beyond the token pools) vs. protocol response model (multiset of owed responses) on the real engine',
             'Sequences over all 14 types with valid/invalid credentials are sent in one burst; responses and backend hook calls are compared with the protocol model; long request-only sequences check that every request is still answered when the per-connection token pools are exceeded.',
